@@ -5,7 +5,7 @@ fn fin(x: f64) -> bool { x.is_finite() && x.abs() <= 1.0e100 }
 
 // C13: an SE(2) space behaves exactly as the compound of R^2 and SO(2) with weights (1, w)
 #[kani::proof]
-#[kani::unwind(5)]
+#[kani::unwind(7)]
 #[kani::stub(f64::sqrt, sqrt_model)]
 #[kani::stub(f64::powi, powi_model)]
 #[kani::stub(f64::rem_euclid, rem_euclid_model)]
@@ -27,7 +27,7 @@ fn se2_is_compound_r2_so2() {
 }
 // C12: SE2State::new canonicalises the yaw; SE2StateSpace::new validates the bounds count and each component
 #[kani::proof]
-#[kani::unwind(5)]
+#[kani::unwind(7)]
 #[kani::stub(f64::rem_euclid, rem_euclid_model)]
 fn se2_state_new_yaw_canonical() {
     let yaw: f64 = kani::any();
